@@ -4,7 +4,10 @@ package main
 
 import (
 	"fmt"
+	"go/constant"
 	"go/token"
+	"go/types"
+	"sort"
 	"strings"
 
 	"golang.org/x/tools/go/ssa"
@@ -291,4 +294,118 @@ func c03NoSingletonInCollections(c *Ctx, r *Report) {
 	}
 	r.OK("R03.6", "slot stores and reference puts on the indexed-assignment path", "", fmt.Sprintf("%d sites in %d functions scanned", n, len(scope)))
 	r.Floor("R03.6", "slot stores and reference puts scanned", n, 4)
+}
+
+// c05EncodingConsulted (R05.12): the decompression flag applies to every
+// source. A function that receives a handle and the encoding flag may hand
+// the handle back unwrapped only where the flag is known to select no
+// decompressor.
+func c05EncodingConsulted(c *Ctx, r *Report) {
+	r.Rule("R05.12", "the decompression flag is consulted for every source: in every function of pkg/lib that receives both an input handle (io.ReadCloser) and the encoding flag (TFileInputEncoding), a successful return of that handle itself, unwrapped, is dominated by the exclusion of every decompressing value of the flag (encoding == X false for each non-default constant, or encoding == default true) — an early return for standard input, say, would ignore --gzin there")
+	p := c.Pkg("pkg/lib")
+	if p == nil {
+		r.Undecided("R05.12", "pkg/lib", "", "package not loaded")
+		return
+	}
+	encT, _ := p.Types.Scope().Lookup("TFileInputEncoding").(*types.TypeName)
+	if encT == nil {
+		r.Undecided("R05.12", "TFileInputEncoding", "", "type not found")
+		return
+	}
+	// the constants of the type
+	consts := map[int64]string{}
+	var dflt int64 = -1
+	for _, nm := range p.Types.Scope().Names() {
+		if k, ok := p.Types.Scope().Lookup(nm).(*types.Const); ok && types.Identical(k.Type(), encT.Type()) {
+			if v, ok := constant.Int64Val(k.Val()); ok {
+				consts[v] = nm
+				if strings.HasSuffix(nm, "Default") {
+					dflt = v
+				}
+			}
+		}
+	}
+	if len(consts) < 3 || dflt < 0 {
+		r.Undecided("R05.12", "TFileInputEncoding constants", "", "fewer than three constants, or no default, found")
+		return
+	}
+	n := 0
+	for _, fobj := range c.FuncsOfPkg(p) {
+		fn := c.SSAFunc(fobj)
+		if fn == nil || fn.Blocks == nil {
+			continue
+		}
+		var enc, handle *ssa.Parameter
+		for _, prm := range fn.Params {
+			if types.Identical(prm.Type(), encT.Type()) {
+				enc = prm
+			}
+			if strings.HasSuffix(prm.Type().String(), "io.ReadCloser") {
+				handle = prm
+			}
+		}
+		if enc == nil || handle == nil {
+			continue
+		}
+		n++
+		bad := ""
+		nret := 0
+		for _, b := range fn.Blocks {
+			ret, ok := b.Instrs[len(b.Instrs)-1].(*ssa.Return)
+			if !ok || len(ret.Results) == 0 {
+				continue
+			}
+			v := ret.Results[0]
+			if ci, ok := v.(*ssa.ChangeInterface); ok {
+				v = ci.X
+			}
+			if v != ssa.Value(handle) {
+				continue
+			}
+			nret++
+			excluded := map[int64]bool{}
+			isDefault := false
+			for _, g := range GuardsAt(b) {
+				cmp, ok := g.Cond.(*ssa.BinOp)
+				if !ok || (cmp.Op != token.EQL && cmp.Op != token.NEQ) {
+					continue
+				}
+				var k *ssa.Const
+				if cmp.X == ssa.Value(enc) {
+					k, _ = cmp.Y.(*ssa.Const)
+				} else if cmp.Y == ssa.Value(enc) {
+					k, _ = cmp.X.(*ssa.Const)
+				}
+				if k == nil || k.Value == nil {
+					continue
+				}
+				kv, ok := constant.Int64Val(k.Value)
+				if !ok {
+					continue
+				}
+				eq := (cmp.Op == token.EQL) == g.Polarity // on this path enc == kv holds (true) or enc != kv holds (false)
+				if eq && kv == dflt {
+					isDefault = true
+				}
+				if !eq {
+					excluded[kv] = true
+				}
+			}
+			if isDefault {
+				continue
+			}
+			var missing []string
+			for kv, nm := range consts {
+				if kv != dflt && !excluded[kv] {
+					missing = append(missing, nm)
+				}
+			}
+			if len(missing) > 0 {
+				sort.Strings(missing)
+				bad = fmt.Sprintf("the return at %s hands back the handle unwrapped although the flag may still be %s", c.Rel(ret.Pos()), strings.Join(missing, ", "))
+			}
+		}
+		r.Check(bad == "", "R05.12", SSAName(fn), c.Rel(fn.Pos()), fmt.Sprintf("%d unwrapped return(s), each with every decompressing value excluded", nret), SSAName(fn)+": "+bad)
+	}
+	r.Floor("R05.12", "functions taking a handle and the encoding flag", n, 1)
 }
